@@ -20,6 +20,7 @@ impl VariableFlags {
     #[verifier::external_body] pub fn is_read_only(&self) -> (r: bool) ensures r == (self.0 & ro_bit() == ro_bit()) { unimplemented!() }
     #[verifier::external_body] pub fn is_exclusive_to_frame(&self) -> (r: bool) ensures r == (self.0 & local_bit() == local_bit()) { unimplemented!() }
     pub fn bits(&self) -> (r: u8) ensures r == self.0 { self.0 }
+    #[verifier::external_body] pub fn can_update(&self) -> (r: bool) ensures r == !(self.0 & ro_bit() == ro_bit()) { unimplemented!() }
 }
 #[verifier::external_body] pub struct Handle { x: usize }
 pub uninterp spec fn cell_id(h: &Handle) -> int;
@@ -63,6 +64,10 @@ pub open spec fn find_frame(fr: Seq<StackFrame>, name: Seq<char>, i: int) -> int
     if i <= 0 || i > fr.len() { -1 }
     else if vars(&fr[i - 1].variables).contains_key(name) && !(flags_of(&vars(&fr[i - 1].variables)[name]).0 & local_bit() == local_bit()) { i - 1 }
     else { find_frame(fr, name, i - 1) }
+}
+// the frame of the executing function: the innermost frame that is not an if / else / loop block frame (-1: none)
+pub open spec fn fn_frame(fr: Seq<StackFrame>, i: int) -> int decreases i {
+    if i <= 0 || i > fr.len() { -1 } else if !special(text_of(&fr[i - 1].label)) { i - 1 } else { fn_frame(fr, i - 1) }
 }
 pub open spec fn labels(fr: Seq<StackFrame>) -> Seq<VString> { Seq::new(fr.len(), |i: int| fr[i].label) }
 // ---- the trace text (Display): a writer that records what is written
@@ -121,6 +126,30 @@ def build(repo):
         Rule("R2", "for $x in self . 0 . iter ( ) . rev ( ) { $$body }", rev_loop("fn", invf), count=1, why="for over iter().rev() -> index counting down (innermost frame first)"),
     ], log, "Stack::find_name")
     check_closed(bfn, "find_name")
+
+    # ---- get_executing_function_label / pop_until_function / VariableMapping::update
+    fel = src.fn(FILE, "get_executing_function_label", "impl Stack")
+    inve = ("invariant_except_break $K <= self.0@.len(), fn_frame(self.0@, self.0@.len() as int) == fn_frame(self.0@, $K as int) "
+            "invariant true ensures fn_frame(self.0@, self.0@.len() as int) == -1 decreases $K")
+    bel = translate(fel["body"], common + [Rule("R2", "for $x in self . 0 . iter ( ) . rev ( ) { $$body }", rev_loop("el", inve), count=1, why="for over iter().rev() -> index counting down")], log, "Stack::get_executing_function_label")
+    check_closed(bel, "get_executing_function_label")
+    fpf = src.fn(FILE, "pop_until_function", "impl Stack")
+    invp = ("invariant_except_break $K <= self.0@.len(), c == 1 + (self.0@.len() - $K), fn_frame(self.0@, self.0@.len() as int) == fn_frame(self.0@, $K as int), self.0 == old(self).0 "
+            "invariant c <= self.0@.len() + 1, self.0@.len() < usize::MAX ensures self.0 == old(self).0, (fn_frame(self.0@, self.0@.len() as int) >= 0 ==> c == self.0@.len() - fn_frame(self.0@, self.0@.len() as int)), "
+            "(fn_frame(self.0@, self.0@.len() as int) < 0 ==> c == self.0@.len() + 1) decreases $K")
+    bpf = translate(fpf["body"], common + [
+        Rule("R2", "for $x in self . 0 . iter ( ) . rev ( ) { $$body }", rev_loop("pf", invp), count=1, why="for over iter().rev() -> index counting down"),
+        Rule("R13", "let popped = self . 0 . drain ( $$r .. ) ;", "self . 0 . truncate ( $$r ) ;", count=1, why="Vec::drain(k..) dropped immediately = truncate(k)"),
+        Rule("R3", "log :: trace ! ( $$a ) ;", "", why="logging dropped"),
+        Rule("R1", "let mut c = 1 ;", "let mut c : usize = 1 ;", why="integer literal type (usize: it is subtracted from size())"),
+    ], log, "Stack::pop_until_function")
+    check_closed(bpf, "pop_until_function")
+    fup = src.fn(FILE, "update", "impl VariableMapping")
+    bup = translate(fup["body"], common + [
+        Rule("R1", "self . 0 . get ( name )", "self . get ( name )", why="HashMap::get on the wrapped map"),
+        Rule("R10", "pair . set_primitive ( value ) ;", "set_primitive ( & pair , value , heap ) ;", why="write through the Gc cell: explicit heap (R10)"),
+    ], log, "VariableMapping::update")
+    check_closed(bup, "VariableMapping::update")
     # ---- Display
     fd = src.fn(FILE, "fmt", "impl Display for Stack")
     invd = ("invariant $K <= self.0@.len() - 1, written(f) == written(old(f)).push(Piece::Cause(self.0@.last().label)) + callers(self.0@, self.0@.len() - 1, $K as int) decreases $K")
@@ -143,6 +172,18 @@ pub open spec fn callers(fr: Seq<StackFrame>, hi: int, k: int) -> Seq<Piece> dec
 }}
 pub proof fn lemma_callers_step(fr: Seq<StackFrame>, hi: int, k: int) requires 0 <= k < hi ensures callers(fr, hi, k) == callers(fr, hi, k + 1).push(Piece::Caller(fr[k].label)) {{ }}
 
+impl Vars {{
+    //@ OBL C07.mapping.update
+    // `modify x = v` inside a closure: the captured variable's OWN cell is overwritten (the owner and every other closure see it)
+    pub fn update(&self, name: &VString, value: Primitive, heap: &mut Cells) -> (r: Result<(), VErr>)
+        ensures
+            r is Ok <==> (vars(self).contains_key(text_of(name)) && !(flags_of(&vars(self)[text_of(name)]).0 & ro_bit() == ro_bit())),
+            r is Ok ==> cells(final(heap)) == cells(old(heap)).insert(cell_id(&vars(self)[text_of(name)]), value),
+            r is Err ==> cells(final(heap)) == cells(old(heap)),
+    {{
+{render(bup, 2)}
+    }}
+}}
 impl Stack {{
     pub fn size(&self) -> (r: usize) ensures r == self.0@.len() {{ self.0.len() }}
 
@@ -193,6 +234,29 @@ impl Stack {{
 {render(brv, 2)}
     }}
 
+
+    //@ OBL C01.stack.executing_function
+    // the target of a recursive `self(...)` call: the function whose body is executing, whatever blocks (if / else / loops) are open in it
+    pub fn get_executing_function_label(&self) -> (r: Option<&VString>)
+        ensures ({{
+            let i = fn_frame(self.0@, self.0@.len() as int);
+            &&& (r is Some <==> i >= 0)
+            &&& (r is Some ==> *r->Some_0 == self.0@[i].label)
+        }}),
+    {{
+{render(bel, 2)}
+    }}
+
+    //@ OBL C01.stack.pop_until_function
+    // `return`: closes the executing function's frame and every block frame open in it -- nothing of the caller
+    pub fn pop_until_function(&mut self)
+        requires old(self).0@.len() < usize::MAX,          // (the counter `c` reaches len + 1 at most)
+                 fn_frame(old(self).0@, old(self).0@.len() as int) >= 0            // (R8) a function frame exists: `size - c` would underflow otherwise
+        ensures final(self).0@ == old(self).0@.subrange(0, fn_frame(old(self).0@, old(self).0@.len() as int)),
+    {{
+{render(bpf, 2)}
+    }}
+
     //@ OBL C07.stack.find_name
     pub fn find_name(&self, name: &VString) -> (r: Option<Handle>)
         ensures ({{
@@ -218,6 +282,9 @@ impl Stack {{
 fn main() {{}}
 """
     obls = [
+        Obl("C07.mapping.update", ["C07", "C08"], fn="VariableMapping::update", desc="VariableMapping::update (modify): the captured variable's own cell is overwritten; missing or read-only name fails; nothing else changes"),
+        Obl("C01.stack.executing_function", ["C01"], fn="Stack::get_executing_function_label", desc="get_executing_function_label: the innermost frame that is not an if/else/loop block frame"),
+        Obl("C01.stack.pop_until_function", ["C01", "C09"], fn="Stack::pop_until_function", desc="pop_until_function (return): removes the executing function's frame and all block frames above it, nothing below"),
         Obl("C07.stack.register_local", ["C07", "C01"], fn="Stack::register_variable_local", desc="register_variable_local: binds the name in the innermost frame to a fresh cell holding the value; nothing else changes"),
         Obl("C07.stack.store", ["C07", "C01", "C10"], fn="Stack::register_variable_flags", desc="register_variable_flags (store): an existing variable of the current function (block frames up to and including the function frame) is overwritten in its own shared cell -- frames untouched, no new cell; read-only / new-flag stores fail; otherwise a fresh local in the innermost frame"),
         Obl("C07.stack.find_name", ["C07", "C01"], fn="Stack::find_name", desc="find_name (load): the innermost frame of the whole call stack that has the name (and is not frame-exclusive); the returned handle is of the same cell"),
@@ -226,7 +293,7 @@ fn main() {{}}
     return gen, obls, log
 
 
-UNITS = [VUnit("c07_stack", ["C07", "C01", "C17", "C10"], "call stack: store into the shared cell, lookup order, trace listing", build)]
+UNITS = [VUnit("c07_stack", ["C07", "C01", "C17", "C10", "C08", "C09"], "call stack: store into the shared cell, lookup order, trace listing", build)]
 UNITS[0].assumes = ["Gc<GcCell<..>> as an explicit heap of cells (R10): a handle denotes a cell, clones alias it, PrimitiveFlagsPair::new allocates an unused cell; flags are fixed per cell",
                     "HashMap<String, _> as a finite map; label classification (SpecialScope::is_label_special_scope) abstract",
                     "Display: write! of the three fixed formats is modelled as appending one piece; the texts `\\t>> ` / `\\r\\n\\t ^ ` themselves are not compared"]
